@@ -139,6 +139,67 @@ pub fn check_string(input: &[u8], workload: &'static str, rep: &mut Report) {
     }
 }
 
+/// The same verdicts through the STREAM entry point: `Frame::read` over a fragmenting reader must classify the line it
+/// consumed (up to the first LF, or the whole input) exactly as the reference classifies that line. Cases run back to
+/// back on one thread, so anything a read leaves behind for the next one (a stale buffer) shows up on the next case.
+pub fn check_via_read(input: &[u8], rng: &mut Rng, rep: &mut Report) {
+    use crate::doubles::{FragReader, ReadFault};
+    let line_end = input.iter().position(|b| *b == b'\n').map(|i| i + 1).unwrap_or(input.len());
+    let line = &input[..line_end];
+    let n = input.len();
+    let density = rng.below(4);
+    let boundaries: Vec<usize> = (1..n).filter(|_| match density {
+        0 => false,
+        1 => rng.chance(1, 6),
+        2 => rng.chance(1, 2),
+        _ => true,
+    }).collect();
+    // one case in twelve: the stream fails hard in the middle of the line
+    let fail_at = if n > 2 && rng.chance(1, 12) { Some(1 + rng.usize(line_end.saturating_sub(1).max(1))) } else { None };
+    let mut faults = vec![];
+    if let Some(p) = fail_at {
+        faults.push((p.min(line_end.saturating_sub(1)), ReadFault::Fail(std::io::ErrorKind::TimedOut), usize::MAX));
+    } else if rng.chance(1, 6) {
+        faults.push((rng.usize(n + 1), ReadFault::Interrupted, 1 + rng.usize(2)));
+    }
+    let mut reader = FragReader::new(input.to_vec(), boundaries.clone(), faults.clone());
+    let r = catch(|| match Frame::read(&mut reader) {
+        Ok(f) => format!("Ok({:04X}:{:02X}:{})", f.address().0, f.message_type().0, hex(f.data())),
+        Err(FrameError::Io { source }) => format!("Io({:?})", source.kind()),
+        Err(FrameError::InvalidFrame { data }) => format!("Malformed({})", hex(&data)),
+        Err(FrameError::FrameDataMismatch { data, expected, actual }) => format!("Length({},{},{})", hex(&data), expected, actual),
+        Err(FrameError::BadChecksum { data, expected, actual }) => format!("Checksum({},{:02X},{:02X})", hex(&data), expected, actual),
+        Err(e) => format!("Other({:?})", e),
+    });
+    rep.count("stream_reads");
+    let hard = reader.log.iter().any(|e| matches!(e.returned, Err(k) if k != std::io::ErrorKind::Interrupted));
+    let want = if hard {
+        rep.count("stream_reads_with_hard_error");
+        "Io(TimedOut)".to_string()
+    } else {
+        match refs::dec(line) {
+            Dec::Ok { addr, ty, data } => format!("Ok({:04X}:{:02X}:{})", addr, ty, hex(&data)),
+            Dec::Malformed => format!("Malformed({})", hex(line)),
+            Dec::Length { declared, actual } => format!("Length({},{},{})", hex(line), declared, actual),
+            Dec::Checksum { declared, computed } => format!("Checksum({},{:02X},{:02X})", hex(line), declared, computed),
+        }
+    };
+    let got = match r {
+        Ok(g) => g,
+        Err(p) => format!("panic {} at {}", p.msg, short_loc(&p.loc)),
+    };
+    let consumed_ok = hard || reader.pos == line_end;
+    if got != want || !consumed_ok {
+        rep.violation(
+            "stream_decoder_vs_reference",
+            if got != want { "read_result_differs" } else { "read_consumed_wrong_amount" },
+            &format!("{}|b{:?}|f{:?}", hex(&input[..input.len().min(300)]), boundaries.len(), faults),
+            format!("Frame::read over [{}] ({} delivery boundaries, faults {:?}): returned {} (consumed {} bytes), the reference says {} for the {}-byte line", show_bytes(input), boundaries.len(), faults, got, reader.pos, want, line_end),
+            J::obj(vec![("workload", J::s("stream")), ("input", J::hex(input)), ("boundaries", J::s(format!("{:?}", boundaries))), ("faults", J::s(format!("{:?}", faults))), ("expected", J::s(want.clone())), ("observed", J::s(got.clone()))]),
+        );
+    }
+}
+
 /// All strings over `alpha` with the given prefix and total length `len` (prefix included).
 fn enumerate(alpha: &[u8], prefix: &[u8], len: usize, workload: &'static str, rep: &mut Report) {
     let k = prefix.len();
@@ -254,8 +315,7 @@ fn hexpair(b: u8, rng: &mut Rng) -> [u8; 2] {
 }
 
 /// One generated / mutated string over all 256 byte values.
-fn generated(rng: &mut Rng, rep: &mut Report, max_len: usize) {
-    const W: &str = "generated";
+fn generated_string(rng: &mut Rng, max_len: usize) -> Vec<u8> {
     let mode = rng.below(12);
     let mut s: Vec<u8> = vec![];
     let build = |rng: &mut Rng, declared: Option<u8>, nd: usize, good_sum: bool| -> Vec<u8> {
@@ -365,7 +425,13 @@ fn generated(rng: &mut Rng, rep: &mut Report, max_len: usize) {
             s.extend_from_slice(&rng.bytes(post));
         }
     }
-    check_string(&s, W, rep);
+    s
+}
+
+/// One generated / mutated string over all 256 byte values, checked through `from_bytes`.
+fn generated(rng: &mut Rng, rep: &mut Report, max_len: usize) {
+    let s = generated_string(rng, max_len);
+    check_string(&s, "generated", rep);
 }
 
 pub fn run(ctx: &Ctx) -> Outcome {
@@ -444,8 +510,15 @@ pub fn run(ctx: &Ctx) -> Outcome {
         }
         Job::Gen(i) => {
             let mut rng = ctx.rng("gen", *i);
-            for _ in 0..n_gen / gen_shards as u64 {
+            let mut r2 = ctx.rng("gen-stream", *i);
+            for k in 0..n_gen / gen_shards as u64 {
                 generated(&mut rng, rep, 600);
+                // every fourth generated string also goes through the stream entry point
+                if k % 4 == 0 {
+                    let mut g = ctx.rng("gen-stream-input", *i * 1_000_003 + k);
+                    let s = generated_string(&mut g, 600);
+                    check_via_read(&s, &mut r2, rep);
+                }
             }
         }
         Job::Huge => {
@@ -485,12 +558,13 @@ pub fn run(ctx: &Ctx) -> Outcome {
         floor("accepted inputs with CRLF", report.get("accepted_with_crlf") > 0, report.get("accepted_with_crlf")),
         floor("inputs with more than 255 data pairs", report.get("more_than_255_data_pairs") > 0, report.get("more_than_255_data_pairs")),
         floor("100 kB inputs", report.get("huge_inputs") == 6, report.get("huge_inputs")),
+        floor("strings also decoded through the stream entry point (Frame::read), some with a hard error mid-line", report.get("stream_reads") > 10_000 && report.get("stream_reads_with_hard_error") > 100, report.get("stream_reads")),
     ];
     Outcome {
         report,
         level: "exploration",
         rule: format!(
-            "ALL strings of length <= {} over the 13-symbol structural alphabet, ALL strings of length <= {} over {{':','0','F',CR,LF}}, every single/pair substitution and insertion on 4 templates with 13 symbols, terminator variants, and seeded generated/mutated strings over all 256 byte values up to 600 bytes (plus 100 kB inputs); distinct by hash of the string; non-trivial = starts with ':' (anything else is rejected on the first byte)",
+            "ALL strings of length <= {} over the 13-symbol structural alphabet, ALL strings of length <= {} over {{':','0','F',CR,LF}}, every single/pair substitution and insertion on 4 templates with 13 symbols, terminator variants, and seeded generated/mutated strings over all 256 byte values up to 600 bytes (plus 100 kB inputs); every fourth generated string also goes through Frame::read over a fragmenting reader (back to back on one thread, some with a hard error mid-line); distinct by hash of the string; non-trivial = starts with ':' (anything else is rejected on the first byte)",
             l13, l5
         ),
         exhaustive: false,
